@@ -23,10 +23,10 @@ def _design_checks(ctx):
         with open(ctx.spec(cfg), "w") as f:
             f.write(src.replace('Variant = "as_built"', 'Variant = "%s"' % v))
         if v in SAFE:
-            return ctx.tlc("MC_C15", cfg, workers=1, xmx="1g", label="D %s: all interleavings of 2 operations, NoRace" % v)
-        return ctx.tlc("MC_C15", cfg, workers=1, xmx="1g", expect_violation=True, label="D %s: pinned counterexample" % v)
+            return ctx.tlc("MC_C15", cfg, workers=1, xmx="1g", timeout=3000, label="D %s: all interleavings of 2 operations, NoRace" % v)
+        return ctx.tlc("MC_C15", cfg, workers=1, xmx="1g", timeout=3000, expect_violation=True, label="D %s: pinned counterexample" % v)
 
-    with cf.ThreadPoolExecutor(max_workers=12) as ex:
+    with cf.ThreadPoolExecutor(max_workers=6) as ex:
         list(ex.map(one, SAFE + UNSAFE))
     if ctx.tier == "thorough":
         ctx.tlc("MC_C15", "MC_C15_3.cfg", label="D as_built: all interleavings of 3 operations, NoRace NoDeadlock", timeout=3000)
@@ -54,7 +54,7 @@ def c15(ctx: Ctx):
         ctx.exhaustive = True
     race = ctx.build_driver(race=True)
     logp = os.path.join(ctx.scratch, "log.ndjson")
-    ctx.drive(cases, logp, driver=race, env={"GORACE": "halt_on_error=1 exitcode=66"}, shards=8, timeout=5400)
+    ctx.drive(cases, logp, driver=race, env={"GORACE": "halt_on_error=1 exitcode=66"}, shards=(8 if ctx.tier == "quick" else 12), timeout=7200)
     rng = random.Random(ctx.seed)
     for l in open(logp):
         o = json.loads(l)
